@@ -31,7 +31,19 @@ BASE_ARGS = ["-Z", "stubbing", "-Z", "unstable-options", "--no-memory-safety-che
 CBMC_ARGS = ["--cbmc-args", "--unwindset", "memcmp.0:34"]
 
 
-def sources_digest(part=None):
+# which of ruler's modules a harness kind can reach (everything it calls lives there); an edit to
+# another module cannot change its verdict, so it need not invalidate the cached one
+KIND_MODULES = {
+    "step":     ["blob", "cache", "work", "history", "current", "ticket", "packet", "system/mod", "system/util"],
+    "glue":     ["blob", "cache", "work", "history", "current", "ticket", "packet", "system/mod", "system/util"],
+    "coarse":   ["blob", "cache", "work", "history", "current", "ticket", "packet", "system/mod", "system/util"],
+    "torn":     ["history", "current", "blob", "ticket", "system/mod", "system/util"],
+    "identity": ["rule", "ticket", "bundle"],
+    "sort":     ["sort", "rule", "ticket", "bundle"],
+}
+
+
+def sources_digest(part=None, kind=None):
     """Hash of everything a harness verdict depends on: /repo's sources as
     read by the generator, the harness crate's own modules, and the harness
     text -- the base harness files (harness/<module>.rs, which also hold shared
@@ -39,7 +51,7 @@ def sources_digest(part=None):
     that part only (parts never refer to each other)."""
     h = hashlib.sha256()
     import gen as _gen
-    for m in _gen.MODULES:
+    for m in KIND_MODULES.get(kind, _gen.MODULES):
         p = os.path.join(_gen.SRC, m + ".rs")
         h.update(p.encode())
         h.update(open(p, "rb").read())
@@ -103,8 +115,10 @@ def parse_log(text):
     if m:
         res["verification_time_s"] = float(m.group(1))
     res["stubs"] = re.findall(r"- Stub: (.*)", text)
+    res["errors"] = len(re.findall(r"- Status: ERROR", text))
     res["oom"] = "out of memory" in text or "std::bad_alloc" in text
-    res["cbmc_failed"] = "CBMC failed" in text
+    # "CBMC failed with status N" also trails ordinary FAILED verdicts; it only matters when CBMC gave no results
+    res["cbmc_failed"] = "CBMC failed" in text and res["checks"] == 0
     res["compile_error"] = bool(re.search(r"^error(\[E\d+\])?:", text, re.M)) and res["verdict_line"] is None
     return res
 
@@ -124,6 +138,8 @@ def classify(res, timed_out):
     if res["failed"]:
         return "fail", "%d assertion(s) failed" % len(res["failed"])
     if res["verdict_line"] != "SUCCESSFUL":
+        if res.get("errors"):
+            return "inconclusive", "CBMC gave no verdict for %d checks (status ERROR: out of memory or solver failure)" % res["errors"]
         return "inconclusive", "verdict %s without a failed assertion" % res["verdict_line"]
     if res["covers_unsat"]:
         return "vacuous", "cover witness not satisfied: %s" % res["covers_unsat"][0]["description"]
@@ -171,7 +187,8 @@ def run_harnesses(names, tier, specs):
     todo = []
     for n in dict.fromkeys(names):
         part = specs.get(n, {}).get("part")
-        dg = sources_digest(part) if part else digest
+        kind = specs.get(n, {}).get("kind")
+        dg = sources_digest(part, kind) if (part or kind in KIND_MODULES) else digest
         cpath = os.path.join(cache_dir, "%s.%s.json" % (n, dg[:24]))
         if use_cache and os.path.exists(cpath):
             r = json.load(open(cpath))
